@@ -454,6 +454,9 @@ func (w *c16aWorld) exec(o c16aOp) vu.Ev {
 					Mode:   v1alpha1.PodMigrationJobModeEvictionDirectly,
 				},
 			}
+			if o.Ts%4 == 1 {
+				job.Spec.PodRef.UID = "" // the uid of the pod reference is optional (jobs created by users name the pod only)
+			}
 			if err := w.client.Create(ctx, job); err != nil {
 				panic(err)
 			}
